@@ -26,7 +26,8 @@ RULE = ("random pipelines: series of 2..60 points x x class x y class x strategy
         " The factor n is also given as numpy.int64, the default strategy class by omission."
         " Round-4 classes: bursts and mixed step sizes as in C01 with the same local tolerance, series of 1001..1800 averages, the factor as NumPy integer scalar of any width (signed / unsigned), integral_match called positionally."
         " Round-5 classes: the pipeline continued on a copy.deepcopy / pickle duplicate of the live object."
-        " Round-6 classes: the pipeline as one chained expression read back from the original name.")
+        " Round-6 classes: the pipeline as one chained expression read back from the original name."
+        " Round-7 classes: an equal earlier pipeline whose get() arrays the caller edited in place.")
 REQUIRED_MONITORS = ["c02:interval_means", "c02:block_average"]
 ASSUMPTIONS = ["x strictly increasing; parameters in documented ranges; reference rule = rectangle"]
 NSHARDS = 16
